@@ -384,7 +384,7 @@ inline void scheduler::run(const std::vector<std::function<void()>>& bodies, str
       syscall(SYS_futex, reinterpret_cast<std::uint32_t*>(&all_done_), FUTEX_WAIT_PRIVATE, 0, &ts, nullptr, 0);
       const std::uint64_t s = *const_cast<volatile std::uint64_t*>(&step_);
       if (s == last_step) {
-        if (++idle > 15000) {  // 30 s without a single step
+        if (++idle > 90000) {  // 180 s without a single step
           std::fprintf(stderr, "SCHEDULER STUCK: step=%llu runnable=%x cur=%d overrides=%s\n",
                        static_cast<unsigned long long>(s), runnable_, cur_, overrides_to_text(taken_).c_str());
           for (std::size_t k = trace_.size() > 12 ? trace_.size() - 12 : 0; k < trace_.size(); ++k)
